@@ -793,6 +793,45 @@ def r07_2(prog: Program, rep):
                        lines(g, prod.witness(nid, st)) if (nid, st) in prod.at else [])
 
 
+def r07_6(prog: Program, rep):
+    """THE PROTECTED FILE AND WHAT IT NAMES.  tables.list of the reftable backend is only meaningful together with the *.ref tables it
+    names.  In every function of reftable.py that both unlinks tables and replaces tables.list through the lock protocol, no unlink is
+    reachable before the replacement has been committed: a refused lock or a failed write must leave the old list AND its tables."""
+    from sa.common import is_gitfile_call, gitfile_mode
+    rel = "dulwich/reftable.py"
+    m = prog.module(rel)
+    n = 0
+    for q, f in sorted(m.funcs.items()):
+        if "#" in q:
+            continue
+        calls = [c for c in ast.walk(f.node) if isinstance(c, ast.Call)]
+        if not any(dotted(c.func) in ("os.remove", "os.unlink") for c in calls):
+            continue
+        plain = [c for c in calls if callee_name(c) == "open" and c.args and "tables_list" in norm(c.args[0]).replace(".", "_")
+                 and len(c.args) > 1 and isinstance(c.args[1], ast.Constant) and "w" in str(c.args[1].value)]
+        if not any(is_gitfile_call(prog, m, c) and "w" in (gitfile_mode(c) or "") for c in calls) and not plain:
+            continue
+        if plain:
+            n += 1
+            rep.ob("R07.6", rel, f.qual, "tables are unlinked only after the new tables.list has been committed", False,
+                   "tables.list is rewritten in place (plain open) in a function that also unlinks tables: there is no commit point at all", plain[0].lineno)
+            continue
+        g = cfg_of(prog, f)
+        rm = [i for i, nd in g.nodes.items() for c in node_calls(nd) if dotted(c.func) in ("os.remove", "os.unlink")]
+        acq = [i for i, nd in g.nodes.items() if nd.kind == "with_enter"
+               and is_gitfile_call(prog, m, nd.ast.items[nd.info].context_expr) and "w" in (gitfile_mode(nd.ast.items[nd.info].context_expr) or "")]
+        commits = [i for i, nd in g.nodes.items() if nd.kind == "with_exit_ok" and any(nd.ast is g.nodes[a].ast for a in acq)]
+        if not acq:
+            continue
+        n += 1
+        bad = must_pass(g, rm, commits)
+        rep.ob("R07.6", rel, f.qual, "tables are unlinked only after the new tables.list has been committed", bool(commits) and not bad,
+               "the tables the current list names are deleted before the lock for the new list is even requested: FileLocked or a failed write "
+               "leaves the old tables.list naming files that are gone - every ref unreadable", g.nodes[(bad or rm)[0]].line)
+    if n < 2:
+        raise AnalysisError(f"reftable.py: expected >= 2 functions that unlink tables and replace tables.list, found {n}")
+
+
 def r07_5(prog: Program, rep):
     """locked_index (public read-modify-write of the index under its lock): (a) __enter__ releases the lock when reading the index
     fails (its __exit__ does not run then); (b) in __exit__ the committing close is inside the region whose handler aborts, and the
@@ -825,6 +864,7 @@ def run(prog: Program, rep, tier="quick"):
     rep.rule("R07.1c", "typestate: no unlink of the lock path is reachable after a successful rename "
                        "(never disturbs a lock taken by someone else)")
     rep.rule("R07.1d", "every exceptional path out of close()/abort() has removed the lock or renamed it")
+    rep.rule("R07.6", "reftable: tables are unlinked only after the tables.list that no longer names them has been committed")
     rep.rule("R07.5", "locked_index releases its lock on a failed enter, commits inside the aborting try and re-raises")
     rep.rule("R07.4", "WHO-MAY-CATCH: FileLocked is never swallowed outside file.py (a held or stale lock fails the writer)")
     rep.rule("R07.2p", "the path a function holds the lock for is never opened for writing directly in that function (in-place write under the lock)")
@@ -845,6 +885,7 @@ def run(prog: Program, rep, tier="quick"):
     r07_2(prog, rep)
     r07_4(prog, rep)
     r07_5(prog, rep)
+    r07_6(prog, rep)
     from sa.common import alias_guard
     alias_guard(prog, rep, "R07.2", {"GitFile", "_GitFile"})
     rep.floor("R07.1b", 4)
